@@ -104,7 +104,16 @@ def contracts():
     ensures r == (match self.global {{ Some(g) => g.{f}, None => None }}), //@C13.{f}_from_global
 """)
     # ---- hook / group resolution (C10 order, C14 unresolved reference, C19 termination)
-    c["get_stdin"] = FnSpec(ret="r")
+    c["get_stdin"] = FnSpec(ret="r", sig="""
+    ensures
+        // a hook's standard input is the configured file, or the configured text, or nothing; configuring both is an error
+        match (hook.stdin, hook.stdin_str) {
+            (Some(f), None) => r matches Ok(hooks::HookStdin::File(p)) && p@ == f@,
+            (None, Some(t)) => r matches Ok(hooks::HookStdin::Str(x)) && x@ == t@,
+            (None, None) => r matches Ok(hooks::HookStdin::None),
+            (Some(_), Some(_)) => r is Err,
+        }, //@C10.hook_stdin_is_the_configured_file_or_text
+""")
     c["Config::get_hook_rec"] = FnSpec(ret="r", sig="""
     ensures
         // a hook name yields that hook; a group name yields its members' expansions in declaration order;
